@@ -18,6 +18,8 @@ THEOREMS = [
     "Ebv.C23.ethertypes_distinct", "Ebv.C23.single_installer", "Ebv.C23.fmmu_windows_disjoint",
     "Ebv.C23.installed_while_running_refuted", "Ebv.C23.installed_while_running_stale_refuted",
     "Ebv.C23.installed_while_running_partial", "Ebv.C23.ethertypes_distinct_fault_refuted",
+    # the addresses ParallelEtherCat.get_fmmu_addr hands out (what a participant actually receives)
+    "Ebv.C23.given_in_window", "Ebv.C23.given_nodup_blocks", "Ebv.C23.fmmu_given_disjoint",
 ]
 TRUSTED = ["hand-written model Ebv.Parallel of ParallelEtherCat.run / LockFile / FMMULock, tied by exact correspondence of per-participant "
            "operation traces, final shared state, first violating prefix of each clause and the Quiet hypothesis under explicit schedules",
@@ -37,7 +39,9 @@ RULE = ("case = 2-4 participants (scripted randrange draws for ethertype and FMM
         "optional pre-existing bitmap file (initialised with random bits / wrong length), explicit schedule of participant numbers: "
         "the five witness schedules, a family of split points of the last-leaver race, random burst / fine-grained / session-boundary "
         "schedules, and the family 'one participant is killed holding its ethertype lock file, two others then start concurrently' "
-        "(every single preemption + random fine-grained interleavings); a participant left unscheduled is a crash; non-trivial = at least two participants performed 5+ operations")
+        "(every single preemption + random fine-grained interleavings), and the family 'process numbers one bit apart (every bit of the 9-bit field, "
+        "both complements), 1 / 2 / maximal number of get_fmmu_addr calls, all running together'; the window clause is judged on the addresses the "
+        "real ParallelEtherCat.get_fmmu_addr RETURNED (4096-byte blocks) as well as on the process windows; a participant left unscheduled is a crash; non-trivial = at least two participants performed 5+ operations")
 IF = "ifc23"
 LOCKDIR = f"/run/lock/ebpf.{IF}.lock"
 PIN = f"/sys/fs/bpf/{IF}/programs"
@@ -786,9 +790,21 @@ def clauses(obs):
         return any(p["running"] and not (o["attached"] is not None and o["pin"] == o["attached"] and p["table"] == o["pin"])
                    for p in o["procs"])
 
+    blocks = {}
+
+    def given(addrs):
+        """the 4096-byte blocks (12 bits address the packet) named by the addresses get_fmmu_addr RETURNED to one participant"""
+        if id(addrs) not in blocks:
+            blocks[id(addrs)] = frozenset(b for a in addrs for b in (a >> 12, (a + 4095) >> 12))
+        return blocks[id(addrs)]
+
     def fw(o):
-        ws = [(p["win"][0], p["win"][0] + 4096 * (len(p["win"][1]) + 1)) for p in o["procs"] if p["running"]]
-        return any(a[0] < b[1] and b[0] < a[1] for i, a in enumerate(ws) for b in ws[i + 1:])
+        run = [p for p in o["procs"] if p["running"]]
+        ws = [(p["win"][0], p["win"][0] + 4096 * (len(p["win"][1]) + 1)) for p in run]
+        if any(a[0] < b[1] and b[0] < a[1] for i, a in enumerate(ws) for b in ws[i + 1:]):
+            return True
+        gs = [given(p["win"][1]) for p in run]
+        return any(a & b for i, a in enumerate(gs) for b in gs[i + 1:])
     return {"ed": first(obs, ed), "si": first(obs, si), "iw": first(obs, iw), "fw": first(obs, fw)}
 
 
@@ -806,7 +822,11 @@ def show(case, m, objs, info, v):
             k = len(info[pid][1]) if isinstance(info.get(pid), tuple) else 0
             no = (fl.base_addr - 4096 * k) >> 22
         tab = w.maps.get((pid, getattr(pe, "programs", None)))
-        parts.append(" ".join(m.tr[pid]) + f" # {status} et={pe.ethertype} no={no} progs={'-' if tab is None else tab}")
+        ga = "-"
+        if status == "running":      # the values get_fmmu_addr returned: count, first, last, sum
+            g = info[pid][1]
+            ga = f"{len(g)}:{g[0] if g else 0}:{g[-1] if g else 0}:{sum(g)}"
+        parts.append(" ".join(m.tr[pid]) + f" # {status} et={pe.ethertype} no={no} progs={'-' if tab is None else tab} ga={ga}")
     mem = w.members()
     d = "-" if mem is None else "[" + ",".join(f"{nm.split('.')[0]}:{o}" for nm, o in mem) + "]"
     fm = w.fm()
@@ -982,8 +1002,33 @@ def fmmu_family(quick):
     return out
 
 
+def neighbour_family(rng, quick):
+    """participants whose process numbers differ in exactly one of the 9 bits of the process-number field (or are complements in
+    it), with 1, 2 and the maximal number of get_fmmu_addr calls, all running at the same time (an installer and one or two
+    joiners, started one after the other): the addresses they RECEIVE must name disjoint blocks.  A wrapper or window computation
+    that loses, shifts or folds a bit of the address makes two of them coincide."""
+    out = []
+    top = (1 << 9) - 1
+    for b in range(9):
+        xs = {top, (1 << b) | (1 if b else 2), rng.randrange(1, top + 1)}
+        for x in sorted(xs):
+            y = x ^ (1 << b)
+            if not 1 <= y <= top:
+                continue
+            for na, nb in ((1, 1), (2, WINDOW_GROUPS - 1)) if quick else ((1, 1), (2, WINDOW_GROUPS - 1), (WINDOW_GROUPS - 1, 3), (0, 2)):
+                if rng.random() < 0.5:
+                    x, y = y, x
+                # installer: 16 operations up to running on a fresh bitmap file; joiner that finds k ethertypes taken: 13 + k
+                out.append({"cfgs": [C(fm=[x], naddr=na), C(et=[12288], fm=[y], naddr=nb)], "sched": [0] * 16 + [1] * 14, "fm0": None})
+        z = top ^ (1 << b)
+        out.append({"cfgs": [C(fm=[1 << b], naddr=2), C(et=[12288], fm=[z], naddr=1), C(et=[12288, 12289], fm=[top], naddr=3)],
+                    "sched": [0] * 16 + [1] * 14 + [2] * 15, "fm0": None})
+    return out
+
+
 def run(ctx):
     cases = []
+    cases += neighbour_family(ctx.rng, ctx.quick)
     # every split point of the last-leaver race: P1 starts after k operations of P0 (k = 11 … 18), P0 continues afterwards
     for k in range(14, 24):
         for j in (3, 7, 14):
@@ -1031,7 +1076,8 @@ LEVEL_TEXT = ("Lean 4 proof over a hand-written model of ParallelEtherCat.run wi
               "operation, explicit schedules, any number of participants, crash = not scheduled again): ethertypes of members are pairwise "
               "distinct and at most one participant is in the install section (invariant proofs, no injected fault); the FMMU windows of "
               "running participants are pairwise disjoint for all schedules, draws, earlier file contents and any number of get_fmmu_addr "
-              "calls (invariant proof, no hypothesis; repaired in /repo); installed-while-running is REFUTED on concrete witness schedules "
+              "calls, and so are the blocks named by the addresses get_fmmu_addr hands out, each of which carries the participant's full process number "
+              "(invariant proof, no hypothesis; repaired in /repo); installed-while-running is REFUTED on concrete witness schedules "
               "(last-leaver/new-starter race, stale programs file after a joiner's clean-up) and proved for the remainder (no start-section "
               "operation while a last leaver is between rmdir and remove(programs) and no rename succeeding over an old programs file). Tie: "
               "the real coroutines of several participant objects driven in one process over an emulated fs/bpf/netlink layer under the same "
